@@ -232,6 +232,11 @@ class C17(EngineCheck):
             for n_ in p['nodes']:
                 n_['mode'] = 'coro'
             S.node_index(p)[target]['mode'] = 'process' if k % 2 else 'thread'
+            for n_ in p['nodes']:
+                n_.pop('both_tags', None)
+            if k % 4 == 1:
+                # process tag next to the thread tag (either order): the node needs the process pool only
+                S.node_index(p)[target]['both_tags'] = 'tp' if k % 8 == 1 else 'pt'
             progs.append({'program': p, 'variant': c['variant']})
         d = tempfile.mkdtemp(prefix='vk_c17b_')
         checked = 0
